@@ -295,14 +295,19 @@ class SmtpRelayClient(RelayPoolClient):
         try:
             self._connect()
             self._handshake()
+            reused = False
             while result:
-                if self._check_server_timeout():
+                # Only a connection that sat idle can have been timed out by
+                # the server; handing the request to a new connection because
+                # of what a fresh one sent could go on forever.
+                if self._check_server_timeout() and reused:
                     self.queue.appendleft((result, envelope))
                     break
                 self._deliver(result, envelope)
                 if self.idle_timeout is None:
                     break
                 result, envelope = self.poll()
+                reused = True
         except SmtpRelayError as e:
             result.set_exception(e)
         except SmtpError as e:
